@@ -15463,3 +15463,175 @@ func E11DashCheckUnits(c *core.Ctx, r *core.Report) {
 	r.Count("E11.dash-check-calls", n)
 	r.Floor("E11.dash-check-calls", 1)
 }
+
+// E11OffsetVerticesUseOffset: every vertex of an offset curve is displaced by the offset.
+func E11OffsetVerticesUseOffset(c *core.Ctx, r *core.Report) {
+	r.Rule("E11.offset-vertices-use-offset", "strokeCubicBezier, flattenSmoothCubicBezier and addCubicBezierLine build the curve parallel to a cubic at distance d (Stroke and Offset use them for both sides; Flatten passes d = 0). Every vertex they emit is a point of the curve displaced along the normal by d: each MoveTo/LineTo in them takes the X and Y of a local whose definition involves the parameter d (through cubicBezierNormal(…, d) or sums with it), and each call among them passes d on (the branch for a curve whose first three control points coincide is not held to this: CubeTo never stores such a curve). A vertex taken straight from the curve (`p.LineTo(q0.X, q0.Y)` with q0 from a split) is right for d = 0 only: both sides of a stroke are pulled onto the centre line there and the stroke is pinched to zero width")
+	p := c.MustPkg("")
+	info := p.TypesInfo
+	n := 0
+	family := map[string]bool{"strokeCubicBezier": true, "flattenSmoothCubicBezier": true, "addCubicBezierLine": true}
+	for name := range family {
+		fd := core.MustFuncDecl(p, name)
+		// the offset parameter: the float64 parameter named in the family's calls; identified as the parameter
+		// passed as the last float argument to cubicBezierNormal inside the function
+		var dObj types.Object
+		ast.Inspect(fd.Body, func(m ast.Node) bool {
+			call, ok := m.(*ast.CallExpr)
+			if !ok {
+				return true
+			}
+			if f := core.CalleeOf(info, call); f != nil && f.Name() == "cubicBezierNormal" && len(call.Args) >= 1 {
+				if id, ok := core.Unparen(call.Args[len(call.Args)-1]).(*ast.Ident); ok {
+					if v, ok := core.ObjOf(info, id).(*types.Var); ok && dObj == nil {
+						for _, fl := range fd.Type.Params.List {
+							for _, nm := range fl.Names {
+								if info.Defs[nm] == types.Object(v) {
+									dObj = v
+								}
+							}
+						}
+					}
+				}
+			}
+			return true
+		})
+		if dObj == nil {
+			// a function that only forwards: take the parameter it passes on as the last argument to a family member
+			ast.Inspect(fd.Body, func(m ast.Node) bool {
+				call, ok := m.(*ast.CallExpr)
+				if !ok {
+					return true
+				}
+				if f := core.CalleeOf(info, call); f != nil && family[f.Name()] && len(call.Args) >= 2 {
+					for _, a := range call.Args[len(call.Args)-2:] {
+						if id, ok := core.Unparen(a).(*ast.Ident); ok && dObj == nil {
+							for _, fl := range fd.Type.Params.List {
+								for _, nm := range fl.Names {
+									if info.Defs[nm] == core.ObjOf(info, id) && nm.Name != "tolerance" {
+										dObj = info.Defs[nm]
+									}
+								}
+							}
+						}
+					}
+				}
+				return true
+			})
+		}
+		if dObj == nil {
+			r.Fail("E11.offset-vertices-use-offset", "canvas."+name+"|offset parameter", c.Pos(fd.Pos()), "the offset parameter (handed to cubicBezierNormal or passed on) was not found")
+			continue
+		}
+		// locals that depend on d
+		dep := map[types.Object]bool{dObj: true}
+		for changed := true; changed; {
+			changed = false
+			ast.Inspect(fd.Body, func(m ast.Node) bool {
+				as, ok := m.(*ast.AssignStmt)
+				if !ok || len(as.Lhs) != len(as.Rhs) {
+					return true
+				}
+				for i, l := range as.Lhs {
+					id, ok := l.(*ast.Ident)
+					if !ok {
+						continue
+					}
+					o := core.ObjOf(info, id)
+					if o == nil || dep[o] {
+						continue
+					}
+					uses := false
+					ast.Inspect(as.Rhs[i], func(k ast.Node) bool {
+						if kid, ok := k.(*ast.Ident); ok && dep[core.ObjOf(info, kid)] {
+							uses = true
+						}
+						return true
+					})
+					if uses {
+						dep[o] = true
+						changed = true
+					}
+				}
+				return true
+			})
+		}
+		k := 0
+		var stack []ast.Node
+		ast.Inspect(fd.Body, func(m ast.Node) bool {
+			if m == nil {
+				stack = stack[:len(stack)-1]
+				return true
+			}
+			stack = append(stack, m)
+			call, ok := m.(*ast.CallExpr)
+			if !ok {
+				return true
+			}
+			f := core.CalleeOf(info, call)
+			if f == nil {
+				return true
+			}
+			switch {
+			case f.Name() == "LineTo" || f.Name() == "MoveTo":
+				if len(call.Args) != 2 {
+					return true
+				}
+				// not held to the rule: the branch for a curve whose first three control points coincide (a
+				// straight line that CubeTo never stores; reached only through degenerate splits)
+				degenerate := false
+				for _, anc := range stack {
+					if is, ok := anc.(*ast.IfStmt); ok {
+						if cc, ok := core.Unparen(is.Cond).(*ast.CallExpr); ok {
+							if se, ok := cc.Fun.(*ast.SelectorExpr); ok && se.Sel.Name == "Equals" {
+								degenerate = true
+							}
+						}
+					}
+				}
+				if degenerate {
+					return true
+				}
+				n++
+				k++
+				key := fmt.Sprintf("canvas.%s|vertex #%d is displaced by the offset", name, k)
+				good := true
+				for _, a := range call.Args {
+					uses := false
+					ast.Inspect(a, func(q ast.Node) bool {
+						if id, ok := q.(*ast.Ident); ok && dep[core.ObjOf(info, id)] {
+							uses = true
+						}
+						return true
+					})
+					if !uses {
+						good = false
+					}
+				}
+				if good {
+					r.OK("E11.offset-vertices-use-offset", key, c.Pos(call.Pos()), "")
+				} else {
+					r.Fail("E11.offset-vertices-use-offset", key, c.Pos(call.Pos()), fmt.Sprintf("`%s` emits a point that does not depend on the offset `%s`: a point of the curve itself, right for Flatten (offset 0) only; both sides of a stroke meet on the centre line there", c.Src(call), dObj.Name()))
+				}
+			case family[f.Name()]:
+				n++
+				k++
+				key := fmt.Sprintf("canvas.%s|call #%d of %s passes the offset on", name, k, f.Name())
+				passes := false
+				for _, a := range call.Args {
+					if id, ok := core.Unparen(a).(*ast.Ident); ok && core.ObjOf(info, id) == dObj {
+						passes = true
+					}
+				}
+				if passes {
+					r.OK("E11.offset-vertices-use-offset", key, c.Pos(call.Pos()), "")
+				} else {
+					r.Fail("E11.offset-vertices-use-offset", key, c.Pos(call.Pos()), fmt.Sprintf("`%s` does not pass the offset `%s` on", c.Src(call), dObj.Name()))
+				}
+			}
+			return true
+		})
+	}
+	r.Count("E11.offset-vertices", n)
+	r.Floor("E11.offset-vertices", 6)
+}
